@@ -8,31 +8,40 @@ def G(**kw):
 
 CODECS = [("32", "base32", None), ("64", "base64", None), ("65", "base64u", "base64u"), ("128", "base128", None)]
 for num, nm, gen in CODECS:
-    G(name="codec%s_enc" % num, harness="codec.c", defs=["CODEC=" + num], defs_quick=["CMAX=4096ul"], entry="h_encode",
+    G(name="codec%s_enc" % num, harness="h_codec.c", defs=["CODEC=" + num], defs_quick=["CMAX=4096ul"], entry="h_encode",
       enforce=[nm + "_encode"], loops="codec.inv", loop_fns=["C_ENCODE"], spec_incs=["spec/codec.h"], gen=gen,
       props={"C07": "all", "C05": "safety", "C06": "safety"}, min_obl=100, replay={"entry": "w_encode", "unwind": 14},
       what="%s_encode: length, capacity, terminator, frame, every emitted character is the documented bit-stream character (ghost index), unbounded by loop contract" % nm)
-    G(name="codec%s_dec" % num, harness="codec.c", defs=["CODEC=" + num], defs_quick=["CMAX=4096ul"], entry="h_decode",
+    G(name="codec%s_dec" % num, harness="h_codec.c", defs=["CODEC=" + num], defs_quick=["CMAX=4096ul"], entry="h_decode",
       enforce=[nm + "_decode"], replace=[nm + "_reverse_init"], loops="codec.inv", loop_fns=["C_DECODE"], spec_incs=["spec/codec.h"], gen=gen,
       props={"C07": "contract", "C05": "safety", "C06": "safety"}, min_obl=100, replay={"entry": "w_decode", "unwind": 8},
       what="%s_decode: length maximal, every byte is the regrouped bit stream of the reverse-mapped characters (ghost index), stops at NUL, unbounded by loop contract" % nm)
 
-    G(name="codec%s_revinit" % num, harness="codec.c", defs=["CODEC=" + num], entry="h_revinit",
+    G(name="codec%s_revinit" % num, harness="h_codec.c", defs=["CODEC=" + num], entry="h_revinit",
       enforce=[nm + "_reverse_init"], gen=gen,
       unwindset=["%s_reverse_init_wrapped_for_contract_checking.0:%d" % (nm, {"32": 33, "64": 65, "65": 65, "128": 129}[num])],
       props={"C07": "contract", "C05": "safety", "C06": "safety"}, min_obl=20,
       what="%s_reverse_init establishes the table invariant rev[c]==SPEC_REV(c) for all 256 c from any state satisfying it (literal loop bound, exact unrolling)" % nm)
 
-    G(name="codec%s_roundtrip" % num, harness="codec.c", defs=["CODEC=" + num], defs_quick=["CMAX=4096ul"], entry="h_roundtrip",
+    G(name="codec%s_roundtrip" % num, harness="h_codec.c", defs=["CODEC=" + num], defs_quick=["CMAX=4096ul"], entry="h_roundtrip",
       replace=[nm + "_encode", nm + "_decode"], gen=gen, props={"C07": "contract"}, min_obl=2, replay={"entry": "w_roundtrip", "unwind": 14},
       what="lemma over the two contracts: decode(encode(x)) has the length the encoder reported and every byte equals the input byte; chunking loses and repeats nothing")
-    G(name="codec%s_alphabet" % num, harness="codec.c", defs=["CODEC=" + num], entry="h_alphabet", gen=gen,
+    G(name="codec%s_alphabet" % num, harness="h_codec.c", defs=["CODEC=" + num], entry="h_alphabet", gen=gen,
       props={"C07": "contract"}, min_obl=4,
       what="alphabet lemma: documented character classes, distinct, no NUL/dot, reverse map inverts")
-G(name="b32_5to8", harness="codec.c", defs=["CODEC=32"], entry="h_5to8", enforce=["b32_5to8"], replay={"entry": "w_5to8", "unwind": 33},
+G(name="b32_5to8", harness="h_codec.c", defs=["CODEC=32"], entry="h_5to8", enforce=["b32_5to8"], replay={"entry": "w_5to8", "unwind": 33},
   props={"C07": "contract", "C05": "safety", "C06": "safety"}, what="b32_5to8 is the Base32 alphabet lookup for all int arguments")
-G(name="b32_8to5", harness="codec.c", defs=["CODEC=32"], entry="h_8to5", enforce=["b32_8to5"], replace=["base32_reverse_init"], replay={"entry": "w_8to5", "unwind": 33},
+G(name="b32_8to5", harness="h_codec.c", defs=["CODEC=32"], entry="h_8to5", enforce=["b32_8to5"], replace=["base32_reverse_init"], replay={"entry": "w_8to5", "unwind": 33},
   props={"C07": "contract", "C05": "safety", "C06": "safety"}, what="b32_8to5 is the Base32 reverse map for all int arguments (incl. negative char values), result 0..31")
+
+PARSE_CHECKS = ["--bounds-check", "--pointer-check", "--div-by-zero-check", "--undefined-shift-check",
+                "--signed-overflow-check", "--pointer-primitive-check"]
+G(name="readname_loop", harness="h_read.c", entry="h_readname_loop", style="legacy", enforce=["readname_loop"],
+  loops="read.inv", loop_fns=["readname_loop_top"], checks=PARSE_CHECKS, replay={"entry": "w_readname", "unwind": 7, "timeout": 200, "enum": {"WLEN": [1, 2, 3, 4, 5, 6]}},
+  props={"C12": "all", "C05": "safety", "C06": "safety"}, min_obl=50,
+  what="readname_loop on a datagram object of exactly packetlen bytes: no read outside it, writes only dst[0..length), result/cursor ranges, terminates (loop variants); the recursive call is a stub carrying the same contract")
+G(name="readname", harness="h_read.c", entry="h_readname", style="legacy", enforce=["readname"], checks=PARSE_CHECKS,
+  props={"C12": "all", "C05": "safety", "C06": "safety"}, min_obl=5, what="readname = readname_loop with depth 10")
 
 LEVELS = {}
 TRUSTED_BASE = ["CBMC 6.11.0 (goto-cc front end, goto-instrument --dfcc contract instrumentation, symex)",
